@@ -158,3 +158,174 @@ def routing_family(tier):
         os.remove(f)
     cache_put(key, res)
     return res
+
+
+# ---------------------------------------------------------------------------------------------
+# slot family (C09)
+# ---------------------------------------------------------------------------------------------
+def slot_family(tier):
+    sd = seed()
+    key = "slot_%s_%s_%d" % (tree_hash(), tier, sd)
+    cached = cache_get(key)
+    if cached:
+        log("slot family: cache hit")
+        return cached
+    t0 = time.time()
+    build_harness()
+    mc = tlc_model_check("slot", "Slot_MC.tla", "Slot_MC.cfg", workers=4, timeout=900, xmx="4g", extra="")
+    d = fresh_dir(os.path.join(WORK, "slot_" + tier))
+    parts = 10 if tier == "quick" else 14
+    maxlen = 5 if tier == "quick" else 6
+    cmds, files = [], []
+    for p in range(parts):
+        f = os.path.join(d, "cases_%02d.ndjson" % p)
+        # each part enumerates the brace keys itself (over its own layouts) and adds its own random keys
+        cmds.append("%s slot-cases --out %s --seed %d --layouts %d --maxlen %d --random-keys %d" % (
+            UVERIF, f, sd * 53 + p, 4 if tier == "quick" else 10, maxlen if p == 0 else 3, 300 if tier == "quick" else 6000))
+        files.append(f)
+    rc, out = _run_cmds(cmds)
+    if rc != 0:
+        raise ToolError("slot rig failed: " + out[-2000:])
+    verdicts = validate_shards("Slot_Trace.tla", "Slot_Trace.cfg", files, jobs=14, timeout=3000)
+    viols, cases = [], 0
+    for v in verdicts:
+        cases += v["n"]
+        if not v["consumed"]:
+            raise ToolError("Slot_Trace did not consume %s\n%s" % (v["shard"], v.get("tlc_tail", "")))
+        lines = None
+        for x in v["viol"]:
+            if lines is None:
+                lines = open(v["shard"]).read().splitlines()
+            e = json.loads(lines[x["line"] - 1])
+            viols.append({"mon": x["mon"], "case": e, "cls": e.get("cmd", e.get("kind"))})
+    kinds, samples, nontrivial = {}, [], 0
+    for f in files:
+        with open(f) as fh:
+            for i, line in enumerate(fh):
+                e = json.loads(line)
+                k = e["kind"] + ("/" + e["reply_kind"] if "reply_kind" in e else "")
+                kinds[k] = kinds.get(k, 0) + 1
+                if e["kind"] in ("route", "multi") or (e["kind"] == "keyslot" and (123 in e["key"])):
+                    nontrivial += 1
+                if e["kind"] == "multi" and len(samples) < 3:
+                    samples.append(e)
+    res = {"tier": tier, "seed": sd, "wall_s": time.time() - t0, "cases": cases, "kinds": kinds, "nontrivial": nontrivial,
+           "violations": viols[:300], "violation_count": len(viols), "samples": samples, "mc": mc, "maxlen": maxlen}
+    for f in files:
+        os.remove(f)
+    cache_put(key, res)
+    return res
+
+
+# ---------------------------------------------------------------------------------------------
+# wire family (C17)
+# ---------------------------------------------------------------------------------------------
+def wire_family(tier):
+    sd = seed()
+    key = "wire_%s_%s_%d" % (tree_hash(), tier, sd)
+    cached = cache_get(key)
+    if cached:
+        log("wire family: cache hit")
+        return cached
+    t0 = time.time()
+    build_harness()
+    d = fresh_dir(os.path.join(WORK, "wire_" + tier))
+    parts = 8 if tier == "quick" else 14
+    count = 150 if tier == "quick" else 3000
+    cmds, files = [], []
+    for p in range(parts):
+        f = os.path.join(d, "cases_%02d.ndjson" % p)
+        cmds.append("%s wire-cases --out %s --seed %d --count %d" % (UVERIF, f, sd * 59 + p, count))
+        files.append(f)
+    rc, out = _run_cmds(cmds)
+    if rc != 0:
+        raise ToolError("wire rig failed: " + out[-2000:])
+    verdicts = validate_shards("Wire_Trace.tla", "Wire_Trace.cfg", files, jobs=14, timeout=3000)
+    viols, cases = [], 0
+    for v in verdicts:
+        cases += v["n"]
+        if not v["consumed"]:
+            raise ToolError("Wire_Trace did not consume %s\n%s" % (v["shard"], v.get("tlc_tail", "")))
+        lines = None
+        for x in v["viol"]:
+            if lines is None:
+                lines = open(v["shard"]).read().splitlines()
+            e = json.loads(lines[x["line"] - 1])
+            cls = "%s:%s" % (e.get("how", e["kind"]), e.get("tk", "-"))
+            if x["mon"].startswith("C17.roundtrip"):
+                # sub-class: a local node without slots?
+                empty = any(not n["slots"] for n in e["orig"].get("local", [])) if isinstance(e.get("orig"), dict) else False
+                cls = "empty_local_node" if empty else "other"
+            viols.append({"mon": x["mon"], "case": e, "cls": cls})
+    kinds, samples, nontrivial = {}, [], 0
+    for f in files:
+        with open(f) as fh:
+            for line in fh:
+                e = json.loads(line)
+                k = e["kind"] + ("/" + e["how"] if "how" in e else "")
+                kinds[k] = kinds.get(k, 0) + 1
+                o = e.get("orig", {})
+                if e["kind"].startswith("corrupt") or (isinstance(o, dict) and (o.get("peer") or o.get("masters") or "sr" in o)):
+                    nontrivial += 1
+                if e["kind"] == "plain" and len(samples) < 2 and o.get("peer") and o.get("local"):
+                    samples.append({"args": e["args"]})
+    res = {"tier": tier, "seed": sd, "wall_s": time.time() - t0, "cases": cases, "kinds": kinds, "nontrivial": nontrivial,
+           "violations": viols[:400], "violation_count": len(viols), "samples": samples, "mc": None}
+    for f in files:
+        os.remove(f)
+    cache_put(key, res)
+    return res
+
+
+# ---------------------------------------------------------------------------------------------
+# compression family (C20)
+# ---------------------------------------------------------------------------------------------
+def compress_family(tier):
+    sd = seed()
+    key = "compress_%s_%s_%d" % (tree_hash(), tier, sd)
+    cached = cache_get(key)
+    if cached:
+        log("compress family: cache hit")
+        return cached
+    t0 = time.time()
+    build_harness()
+    d = fresh_dir(os.path.join(WORK, "compress_" + tier))
+    parts = 8 if tier == "quick" else 14
+    count = 80 if tier == "quick" else 1500
+    cmds, files = [], []
+    for p in range(parts):
+        f = os.path.join(d, "cases_%02d.ndjson" % p)
+        cmds.append("%s compress-cases --out %s --seed %d --count %d%s" % (UVERIF, f, sd * 61 + p, count, " --big" if p % 2 == 0 else ""))
+        files.append(f)
+    rc, out = _run_cmds(cmds)
+    if rc != 0:
+        raise ToolError("compress rig failed: " + out[-2000:])
+    verdicts = validate_shards("Compress_Trace.tla", "Compress_Trace.cfg", files, jobs=14, timeout=3000)
+    viols, cases = [], 0
+    for v in verdicts:
+        cases += v["n"]
+        if not v["consumed"]:
+            raise ToolError("Compress_Trace did not consume %s\n%s" % (v["shard"], v.get("tlc_tail", "")))
+        lines = None
+        for x in v["viol"]:
+            if lines is None:
+                lines = open(v["shard"]).read().splitlines()
+            e = json.loads(lines[x["line"] - 1])
+            viols.append({"mon": x["mon"], "case": e, "cls": "%s:%s" % (e.get("strategy"), e.get("shape", e.get("cmd")))})
+    kinds, samples, nontrivial = {}, [], 0
+    for f in files:
+        with open(f) as fh:
+            for line in fh:
+                e = json.loads(line)
+                k = "%s/%s/%s" % (e["kind"], e.get("strategy"), e.get("shape", e.get("cmd")))
+                kinds[k] = kinds.get(k, 0) + 1
+                if e.get("strategy") != "disabled":
+                    nontrivial += 1
+                if len(samples) < 2 and e["kind"] == "wr" and e["strategy"] == "allow_all" and e["multi"]:
+                    samples.append(e)
+    res = {"tier": tier, "seed": sd, "wall_s": time.time() - t0, "cases": cases, "kinds": {"distinct_shapes": len(kinds)}, "nontrivial": nontrivial,
+           "violations": viols[:300], "violation_count": len(viols), "samples": samples, "mc": None}
+    for f in files:
+        os.remove(f)
+    cache_put(key, res)
+    return res
